@@ -4,6 +4,7 @@ import ast
 from ..core import AnalysisError, src
 from ..pysym import SymExec, show, subterms
 from ..rules_pyx import N, C, A
+from .. import logic
 from .. import datafiles as df
 from .. import effects
 
@@ -81,7 +82,8 @@ def r_polarity(repo, rep, R='R17.1'):
         ok_obj = obj[0] == 'unpack' and obj[2] == 0       # first component of the (tag_scores, dep_scores) pair
         rep.check(ok_row and ok_obj, 'R17.2', wf, 'filters:row', 'the row is the token\'s position in its sentence (enumerate from 0) of that sentence\'s tag matrix',
                   'store target is %s[%s]' % (show(obj)[:60], show(row)[:60] if row else None))
-        word_guard = any(pol and c[0] == 'cmp' and c[1] == 'in' and c[2][0] == 'attr' and c[2][2] == 'word' and c[3] == col[1] for c, pol, _ in st.conds) if is_mask else False
+        word_guard = is_mask and col[2][0] == 'attr' and col[2][2] == 'word' and \
+            logic.implied([(c, pol) for c, pol, _ in st.conds], ('atom', ('in', col[2], col[1])))
         same_word = is_mask and col[2][0] == 'attr' and col[2][2] == 'word'
         rep.check(word_guard and same_word, 'R17.2', wf, 'filters:word-guard', 'only tokens whose word is in the dictionary are touched, with that word\'s mask',
                   'the store is not guarded by `token.word in category_dict` with the same word')
